@@ -77,13 +77,18 @@ def run(ctx):
     stats = {"imports": 0, "nested_imports": 0, "dies_with_specification_and_abstract_origin": 0, "integration_chains_over_one_hop": 0,
              "model_internal_find_vs_attribute_disagreements": 0}
     try:
-        for k in range(n):
+        todo = [(d, pth) for d, pth in fs.corpus("C06")] if not ctx.replay else []
+        stats["corpus_files"] = len(todo)
+        for k in range(-len(todo), n):
+            if k < 0:
+                desc, path = todo[k + len(todo)]
             opts = {"max_units": 5, "min_units": 2, "cross_unit_chains": k % 2 == 0}
             if k % 4 == 3:
                 opts["max_chain"] = 6
             if k % 3 == 1:
                 opts.update({"cu_imports": 0.4, "implicit_consts": 0.4})
-            desc, path = fs.make(rng, **opts)
+            if k >= 0:
+                desc, path = fs.make(rng, **opts)
             i, ne, _ = import_stats(desc)
             stats["imports"] += i
             stats["nested_imports"] += ne
